@@ -115,6 +115,9 @@ func runCheck(args []string) int {
 	var drift []string
 	nContract := 0
 	for _, name := range cfg.Functions {
+		if nn, ok := e.rebound[name]; ok {
+			name = nn
+		}
 		f := e.findFunction(name)
 		if f == nil {
 			drift = append(drift, name+": function not found in the current tree")
@@ -467,9 +470,13 @@ func tail(s string, n int) string {
 
 // runGoTest runs an in-package test injected through -overlay against the repository.
 func runGoTest(pkg, file, test, replayFile string, seed int, timeoutS int) (bool, string) {
-	src := filepath.Join(verifDir(), "replay", file)
-	dst := filepath.Join(repoDir(), pkg, "zz_verif_"+filepath.Base(file))
-	ov := map[string]map[string]string{"Replace": {dst: src}}
+	// all driver files of the same replay directory are injected together (they share helpers)
+	srcs, _ := filepath.Glob(filepath.Join(verifDir(), "replay", filepath.Dir(file), "*_test.go"))
+	rep := map[string]string{}
+	for _, src := range srcs {
+		rep[filepath.Join(repoDir(), pkg, "zz_verif_"+filepath.Base(src))] = src
+	}
+	ov := map[string]map[string]string{"Replace": rep}
 	tmp, err := os.CreateTemp("", "govc-ov-*.json")
 	if err != nil {
 		return false, err.Error()
